@@ -486,13 +486,32 @@ func genTxo(r *core.Rand) (txo, string) {
 	return txo{genAmount(r), s, genHeight(r), r.Bool()}, cl
 }
 
-func vlqBytes(n uint64) []byte { return blockchain.VerifPutVLQ(n) }
+// vlqBytes is the generator's own VLQ encoder (independent of the code under test).
+func vlqBytes(n uint64) []byte { return encVLQBig(new(big.Int).SetUint64(n)) }
+
+// try runs a real encoder inside the generator; a panic there (a size calculator that disagrees with
+// its encoder after a change) must not kill the run: the direct encode lines already emitted for the
+// same value report it as a precise Go/Lean difference, the derived decoder cases are skipped.
+func try(f func() []byte) (out []byte, ok bool) {
+	defer func() {
+		if recover() != nil {
+			out, ok = nil, false
+		}
+	}()
+	return f(), true
+}
 
 // overlong VLQs (more than 10 bytes, value wraps mod 2^64) that decode to v: encode 2^64+v in the unbounded scheme.
 func wrapVLQ(v uint64, extra int) []byte {
 	n := new(big.Int).Lsh(big.NewInt(1), 64)
 	n.Mul(n, big.NewInt(int64(1+extra)))
 	n.Add(n, new(big.Int).SetUint64(v))
+	return encVLQBig(n)
+}
+
+// encVLQBig encodes an arbitrarily large natural number in the unbounded VLQ scheme.
+func encVLQBig(n0 *big.Int) []byte {
+	n := new(big.Int).Set(n0)
 	var out []byte
 	first := true
 	for {
@@ -691,14 +710,19 @@ func (P) Generate(g *core.Gen) {
 		g.Case("stxo-"+cl, true, "C15 stxo "+t.String())
 		// decode what the real encoder produced, plus damaged variants
 		full := i%25 == 0
-		buf, _ := blockchain.VerifPutCompressedTxOut(t.amount, t.script)
-		if len(buf) < 400 || i%40 == 0 {
+		buf, ok := try(func() []byte { b, _ := blockchain.VerifPutCompressedTxOut(t.amount, t.script); return b })
+		if ok && (len(buf) < 400 || i%40 == 0) {
 			malformed(g, r, "untxo", buf, "", full && len(buf) < 120)
-			ub, _ := blockchain.VerifSerializeUtxoEntry(int64(t.amount), t.script, t.height, t.cb, false)
-			malformed(g, r, "unutxo", ub, "", full && len(ub) < 120)
+			if ub, ok := try(func() []byte {
+				b, _ := blockchain.VerifSerializeUtxoEntry(int64(t.amount), t.script, t.height, t.cb, false)
+				return b
+			}); ok {
+				malformed(g, r, "unutxo", ub, "", full && len(ub) < 120)
+			}
 			st := t.stxo()
-			sb, _ := blockchain.VerifPutSpentTxOut(&st)
-			malformed(g, r, "unstxo", sb, "", full && len(sb) < 120)
+			if sb, ok := try(func() []byte { b, _ := blockchain.VerifPutSpentTxOut(&st); return b }); ok {
+				malformed(g, r, "unstxo", sb, "", full && len(sb) < 120)
+			}
 		}
 	}
 	// hostile script sizes behind every prefix
@@ -735,7 +759,10 @@ func (P) Generate(g *core.Gen) {
 			sl = append(sl, l[j].stxo())
 		}
 		g.Case("journal", n > 0, "C15 journal "+showTxos(l))
-		ser := blockchain.VerifSerializeSpendJournalEntry(sl)
+		ser, ok := try(func() []byte { return blockchain.VerifSerializeSpendJournalEntry(sl) })
+		if !ok {
+			continue
+		}
 		// a random composition of n (every transaction shape), sometimes a lying one
 		total := n
 		switch r.Intn(6) {
@@ -789,7 +816,10 @@ func (P) Generate(g *core.Gen) {
 		g.Case("best", true, fmt.Sprintf("C15 best %s %d %d %s", hex.EncodeToString(hash), ht, tt, ws.Text(16)))
 		var h chainhash.Hash
 		copy(h[:], hash)
-		ser := blockchain.VerifSerializeBestChainState(h, ht, tt, ws)
+		ser, ok := try(func() []byte { return blockchain.VerifSerializeBestChainState(h, ht, tt, ws) })
+		if !ok {
+			continue
+		}
 		malformed(g, r, "unbest", ser, "", i%10 == 0 && len(ser) < 200)
 		// lie about the work sum length
 		c := append([]byte{}, ser...)
@@ -812,7 +842,14 @@ func (P) Generate(g *core.Gen) {
 		line := fmt.Sprintf("C15 row %d %s %s %d %d %d %d %d", ver, hex.EncodeToString(prev), hex.EncodeToString(r.Bytes(32)),
 			ts, r.U32(), r.U32(), r.Intn(256), r.U32()>>uint(r.Intn(32)))
 		g.Case("row", true, line)
-		out := P{}.Exec(line)
+		out := func() (o string) {
+			defer func() {
+				if recover() != nil {
+					o = "panic"
+				}
+			}()
+			return P{}.Exec(line)
+		}()
 		if sp := strings.Fields(out); len(sp) == 2 {
 			malformed(g, r, "unrow", unhex(sp[1]), "", i%10 == 0)
 		}
@@ -916,7 +953,7 @@ func encV0(r *core.Rand) []byte {
 			if len(t.script) > 200 {
 				t.script = t.script[:50]
 			}
-			b, _ := blockchain.VerifPutCompressedTxOut(t.amount, t.script)
+			b, _ := try(func() []byte { b, _ := blockchain.VerifPutCompressedTxOut(t.amount, t.script); return b })
 			out = append(out, b...)
 		}
 	}
